@@ -137,6 +137,8 @@ def obligations(tier, seed):
         obs.append(make("three", src, three, [other, src]))
         obs.append(make("two", src, two, [other, src, other]))
         obs.append(make("mixed", src, mixed, [other]))
+        obs.append(make("edge2295", src, [S("EDGE", 2295, "ml")], [other, src]))
+        obs.append(make("edge2298+256", src, [S("EDGE", 2298, "ml"), S("B256", 256, "ml")], [other, src]))
         obs.append(make("sel-upper", src, two, [other], ["WORLD"], [1]))
         obs.append(make("sel-lower", src, two, [other], ["world"], [1]))
         obs.append(make("sel-mixed", src, two, [other], ["hello"], [0]))
